@@ -33,6 +33,7 @@ fn main() {
         std::process::exit(props::replay(&prop, &r));
     }
     let res = match prop.as_str() {
+        "C02" => props::c02::run(&cfg),
         "C06" => props::c06::run(&cfg),
         "C07" => props::c07::run(&cfg),
         "C08" => props::c08::run(&cfg),
